@@ -5,6 +5,16 @@ sessions, a runner that drives the real `GroFile` (optionally snapshotting the f
 A *session* is a JSON-serialisable list of ops
     ["c", title] | ["b3", [a,b,c]] | ["b9", [[3],[3],[3]]] | ["n", natoms] | ["f", w, d]
     | ["w", [resnum, resname, name, atomnum, x, y, z(, vx, vy, vz)]] | ["x"]
+    | ["ws", rec]      writeline(str) where str is exactly the text of `rec` in the session's position format
+                       (resolved by `resolve_ops`; in the property's quantifier: must round-trip like a record)
+    | ["s", text]      writeline(text): any pre-formatted string
+    | ["t", n]         writeline(tuple(range(n))), n not in (7, 10)
+    | ["bx", shape]    box_matrix = numpy.zeros(shape), shape not in ((3,), (3,3))
+
+A *reader script* is a list of
+    ["c", title] | ["b3", ..] | ["b9", ..] | ["bx", shape] | ["n", k] | ["f", w, d]   (setters: AttributeError)
+    | ["k", index]     seek_atom(index)
+    | ["l", parsed]    readline(parsed)
 """
 from __future__ import annotations
 
@@ -89,11 +99,61 @@ def op_tokens(op) -> str:
         return "w " + rec_tokens(op[1])
     if k == "x":
         return "x"
+    if k == "s":
+        return "s " + hexs(text_bytes(op[1]))      # what the text layer writes for it
+    if k == "t":
+        return f"t {int(op[1])}"
+    if k == "bx":
+        return "bx"
     raise ValueError(f"unknown op {op!r}")
 
 
+def py_line(rec, w, d) -> str:
+    """the text of an atom record in the format (w, d) — written independently of `parse_atomlist`"""
+    out = "{:5d}{:5s}{:>5s}{:5d}".format(rec[0] % 100000, rec[1], rec[2], rec[3] % 100000)
+    out += "".join("{:{w}.{d}f}".format(v, w=w, d=d) for v in rec[4:7])
+    if len(rec) == 10:
+        out += "".join("{:{w}.{d}f}".format(v, w=w, d=d + 1) for v in rec[7:])
+    return out
+
+
+def session_format(ops):
+    """the position format in force when the first line is written: the last `f` before it, else (8, 3)"""
+    fmt = (8, 3)
+    for o in ops:
+        if o[0] in ("w", "ws", "s", "t"):
+            break
+        if o[0] == "f":
+            fmt = (int(o[1]), int(o[2]))
+    return fmt
+
+
+def resolve_ops(ops):
+    """replace every ["ws", rec] by ["s", text of rec in the session's format]"""
+    if not any(o[0] == "ws" for o in ops):
+        return ops
+    w, d = session_format(ops)
+    return [["s", py_line(o[1], w, d)] if o[0] == "ws" else o for o in ops]
+
+
 def ops_tokens(ops) -> str:
+    ops = resolve_ops(ops)
     return " ".join([str(len(ops))] + [op_tokens(o) for o in ops])
+
+
+def rop_tokens(op) -> str:
+    k = op[0]
+    if k in ("c", "b3", "b9", "n", "f", "bx"):
+        return op_tokens(op)
+    if k == "k":
+        return f"k {int(op[1])}"
+    if k == "l":
+        return f"l {1 if op[1] else 0}"
+    raise ValueError(f"unknown reader op {op!r}")
+
+
+def rops_tokens(rops) -> str:
+    return " ".join([str(len(rops))] + [rop_tokens(o) for o in rops])
 
 
 class Toks:
@@ -401,6 +461,127 @@ def gen_invalid_session(rng):
     return ops
 
 
+BAD_SHAPES = [[], [1], [2], [4], [9], [2, 2], [3, 2], [1, 3], [3, 1], [3, 3, 3], [0]]
+BAD_LENGTHS = [0, 1, 2, 3, 4, 5, 6, 8, 9, 11, 12]
+RAW_CHARS = "ABCxyz0123456789 .-+eE\t_#"
+
+
+def gen_mixed_session(rng, nrec=None, max_rec=40, first_string=None):
+    """IN the property's quantifier: a valid session in which some records are handed to `writeline` as the string
+    `parse_atomlist` would have produced for them (`ws`); the first line too with probability 1/2"""
+    ops = gen_valid_session(rng, nrec=nrec, max_rec=max_rec)
+    first = True
+    for o in ops:
+        if o[0] == "w":
+            p = (0.5 if first_string is None else (1.0 if first_string else 0.0)) if first else 0.5
+            if rng.random() < p:
+                o[0] = "ws"
+            first = False
+    return ops
+
+
+def gen_raw_line(rng, w, d, vel):
+    """a pre-formatted line, well- or ill-formed"""
+    k = rng.random()
+    rec = gen_record(rng, w, d, vel)
+    line = py_line(rec, w, d)
+    if k < 0.25:
+        return line                                                # well formed, the session's format
+    if k < 0.4:
+        d2 = rng.randint(1, 6)                                     # well formed, ANOTHER format
+        return py_line(gen_record(rng, d2 + 5, d2, rng.random() < 0.5), d2 + 5, d2)
+    if k < 0.5:
+        return line[:rng.randint(0, len(line))]                    # truncated (incl. empty)
+    if k < 0.62:
+        j = rng.randrange(len(line))
+        return line[:j] + rng.choice(". x\n-e") + line[j + 1:]     # one character replaced
+    if k < 0.7:
+        return line + rng.choice(["\n", " ", "0", ".", "\n\n", "\nx"])
+    if k < 0.78:
+        # numbers / values in other legal spellings (sign, exponent, no leading zero, inf, nan, '_')
+        f = rng.choice(["  1e-3", "   +.5", "   inf", "   nan", "  -inf", " 1_0.0", "  1.e1", " 0.5e1", "1.5E+2", "  -0.0"])
+        f = f.rjust(w)[:w] if len(f) <= w else f[:w]
+        i = rng.randrange(3)
+        return line[:20 + i * w] + f + line[20 + (i + 1) * w:]
+    if k < 0.86:
+        n = rng.choice(["   -1", "  +12", " 1 2 ", "     ", "12a45", "1e3  ", "-9999", "1_000"])
+        return (n + line[5:]) if rng.random() < 0.5 else (line[:15] + n + line[20:])
+    if k < 0.93:
+        return "".join(rng.choice(RAW_CHARS) for _ in range(rng.randint(0, 70)))
+    return rng.choice(["", "\n", " ", "x", "no dots here at all", "1.2.3", "." * 23, " " * 20 + "." * 6])
+
+
+def gen_api_session(rng):
+    """malformed stream for the rest of the writer API (model correspondence only): string lines (first / later,
+    well- or ill-formed, in the session's format or another), tuples of a wrong length, boxes of a wrong shape,
+    sessions closed without a record (count undeclared / declared 0 / declared k), writes after close"""
+    k = rng.randrange(8)
+    if k == 0:      # closed before any record
+        ops = [o for o in gen_valid_session(rng, nrec=1) if o[0] not in ("w", "n")]
+        j = rng.randrange(4)
+        if j == 1:
+            ops.insert(rng.randrange(len(ops)), ["n", 0])
+        elif j == 2:
+            ops.insert(rng.randrange(len(ops)), ["n", rng.randint(1, 5)])
+        elif j == 3:
+            ops = ops + [["x"]] + ([["w", gen_record(rng, 8, 3, False)]] if rng.random() < 0.5 else [])
+        return ops
+    ops = gen_valid_session(rng, nrec=rng.randint(1, 6))
+    w, d = session_format(ops)
+    recs = [i for i, o in enumerate(ops) if o[0] == "w"]
+    vel = len(ops[recs[0]][1]) == 10
+    if k == 1:      # the FIRST line is a string of any kind
+        ops[recs[0]] = ["s", gen_raw_line(rng, w, d, vel)]
+        if rng.random() < 0.3 and len(recs) > 1:
+            ops[recs[1]] = ["s", gen_raw_line(rng, w, d, vel)]
+    elif k == 2:    # later lines are strings of any kind
+        for i in recs[1:] or recs:
+            if rng.random() < 0.7:
+                ops[i] = ["s", gen_raw_line(rng, w, d, vel)]
+        if len(recs) == 1:
+            ops.insert(recs[0] + 1, ["s", gen_raw_line(rng, w, d, vel)])
+    elif k == 3:    # a tuple of a wrong length as the first line
+        ops.insert(recs[0], ["t", rng.choice(BAD_LENGTHS)])
+        if rng.random() < 0.3:
+            ops = [o for o in ops if o[0] != "w"]
+    elif k == 4:    # … as a later line
+        ops.insert(rng.choice(recs) + 1, ["t", rng.choice(BAD_LENGTHS)])
+    elif k == 5:    # a box of a wrong shape, before or after the first line
+        ops.insert(rng.randrange(len(ops)), ["bx", rng.choice(BAD_SHAPES)])
+    elif k == 6:    # string lines after close / only strings
+        ops = [o if o[0] != "w" else ["s", py_line(o[1], w, d)] for o in ops]
+        if rng.random() < 0.5:
+            ops.append(["s", "after close"])
+    else:           # first line a string in ANOTHER format than the session's, then records
+        d2 = rng.choice([x for x in range(1, 7) if x != d])
+        ops[recs[0]] = ["s", py_line(gen_record(rng, d2 + 5, d2, vel), d2 + 5, d2)]
+    return ops
+
+
+def gen_reader_script(rng, natoms, nonneg=False):
+    """read-mode API: seeks around and past the ends, raw / parsed reads, setters (all must raise)"""
+    rops = []
+    for _ in range(rng.randint(1, 14)):
+        k = rng.random()
+        if k < 0.4:
+            j = rng.random()
+            if j < 0.5:
+                i = rng.randint(0, max(natoms, 0))
+            elif j < 0.8:
+                i = natoms + rng.randint(1, 3)
+            elif j < 0.9:
+                i = rng.choice([10 ** 6, 2 ** 40])
+            else:
+                i = -rng.randint(1, 3) if not nonneg else 0
+            rops.append(["k", i])
+        elif k < 0.8:
+            rops.append(["l", rng.random() < 0.5])
+        else:
+            rops.append(rng.choice([["c", "new title"], ["n", rng.randint(0, 9)], ["f", rng.randint(6, 11), rng.randint(1, 6)],
+                                    gen_box(rng), ["bx", rng.choice(BAD_SHAPES)]]))
+    return rops
+
+
 # ----------------------------------------------------------------------------- real implementation
 
 
@@ -439,6 +620,12 @@ def apply_op(g, op):
         g.writeline((int(r[0]), str(r[1]), str(r[2]), int(r[3])) + tuple(float(v) for v in r[4:]))
     elif k == "x":
         g.close()
+    elif k == "s":
+        g.writeline(str(op[1]))
+    elif k == "t":
+        g.writeline(tuple(range(int(op[1]))))
+    elif k == "bx":
+        g.box_matrix = np.zeros(tuple(int(v) for v in op[1]))
     else:
         raise ValueError(f"unknown op {op!r}")
 
@@ -452,6 +639,7 @@ def run_session(path, ops, snap=False):
     """drive the real GroFile; returns (errors per op, final bytes, snapshots)
     snapshots: list of (op_index, write_index_in_op or None for 'after op', bytes)"""
     from gaddlemaps.parsers import GroFile
+    ops = resolve_ops(ops)
     errs = []
     snaps = []
     with warnings.catch_warnings():
@@ -527,6 +715,106 @@ def read_back(path):
                 out["rerr"] = type(e).__name__
         finally:
             r.close()
+    return out
+
+
+def _reader_header(r):
+    return (r._comment, r._natoms, r._init_position, r._atomline_bytesize,
+            tuple(r._format["position"]), bool(r._format["velocities"]), r._box_matrix.tobytes())
+
+
+def run_reader(path, rops):
+    """open with the real reader and apply a reader script; per op: (result, tell(), _current_atom), where result
+    is ("U",) | ("L", line) | ("P", record) | ("E", exception class); plus whether any op changed a header
+    attribute (comment, natoms, offsets, format, box)"""
+    import numpy as np
+    from gaddlemaps.parsers import GroFile
+    with warnings.catch_warnings():
+        warnings.simplefilter("ignore")
+        try:
+            r = GroFile(path)
+        except Exception as e:          # noqa: BLE001
+            return {"open_err": type(e).__name__}
+        out = {"title": r.comment, "natoms": r.natoms, "fmt": tuple(r._format["position"]),
+               "vel": bool(r._format["velocities"]), "box": [float(v) for v in r.box_matrix.ravel()],
+               "init": r._init_position, "size": r._atomline_bytesize, "results": [], "header_changed": []}
+        hdr = _reader_header(r)
+        try:
+            for i, op in enumerate(rops):
+                k = op[0]
+                if k == "k":
+                    def call(op=op):
+                        r.seek_atom(int(op[1]))
+                        return ("U",)
+                elif k == "l":
+                    def call(op=op):
+                        v = r.readline(parsed=bool(op[1]))
+                        return ("P", tuple(v)) if bool(op[1]) else ("L", v)
+                elif k == "c":
+                    def call(op=op):
+                        r.comment = op[1]
+                        return ("U",)
+                elif k == "n":
+                    def call(op=op):
+                        r.natoms = int(op[1])
+                        return ("U",)
+                elif k == "f":
+                    def call(op=op):
+                        r.position_format = (int(op[1]), int(op[2]))
+                        return ("U",)
+                elif k == "b3":
+                    def call(op=op):
+                        r.box_matrix = np.array([float(v) for v in op[1]])
+                        return ("U",)
+                elif k == "b9":
+                    def call(op=op):
+                        r.box_matrix = np.array([[float(v) for v in row] for row in op[1]])
+                        return ("U",)
+                elif k == "bx":
+                    def call(op=op):
+                        r.box_matrix = np.zeros(tuple(int(v) for v in op[1]))
+                        return ("U",)
+                else:
+                    raise ValueError(f"unknown reader op {op!r}")
+                try:
+                    res = call()
+                except Exception as e:      # noqa: BLE001 - the class is the observable
+                    res = ("E", type(e).__name__)
+                out["results"].append((res, r._file.tell(), r._current_atom))
+                if _reader_header(r) != hdr:
+                    out["header_changed"].append(i)
+                    hdr = _reader_header(r)
+        finally:
+            r._file.close()
+    return out
+
+
+def parse_rsession_response(status, toks):
+    """decode `gro_rsession`: header as `gro_read`, then per op (result, pos, cur)"""
+    if status == "err":
+        return {"open_err": toks[0]}
+    t = Toks(toks)
+    out = {"title": t.bytes(), "natoms": t.int(), "init": t.int(), "size": t.int()}
+    nfig = t.int()
+    ndec = t.int()
+    out["fmt"] = (nfig, ndec)
+    out["vel"] = bool(t.int())
+    out["box"] = t.box()
+    res = []
+    for _ in range(t.int()):
+        k = t.next()
+        if k == "U":
+            v = ("U",)
+        elif k == "L":
+            v = ("L", t.bytes())
+        elif k == "P":
+            v = ("P", t.rrec())
+        elif k == "E":
+            v = ("E", t.next())
+        else:
+            raise ValueError("bad reader result kind " + k)
+        res.append((v, t.int(), t.int()))
+    out["results"] = res
     return out
 
 
